@@ -257,6 +257,11 @@ class Renderer:
         self.synth_loops = 0
         self.assoc_types = {}
         if fn.impl is not None:
+            # associated types: of this impl, else of any other trait impl for the same Self type
+            # (`Self::Item` inside `impl DoubleEndedIterator` names the Iterator impl's Item)
+            tyname = re.sub(r"<.*", "", compact(fn.impl["self_ty_text"]))
+            for k, v in ctx.assoc.get((fn.mod, tyname), {}).items():
+                self.assoc_types[k] = v
             for sub in fn.impl["items"]:
                 if sub["kind"] == "type":
                     self.assoc_types[sub["name"]] = sub["ty"]
@@ -437,7 +442,8 @@ class Renderer:
         before = self.stmt_text("loop", str(k), "before")
         entry = self.stmt_text("loop", str(k), "body_entry")
         exit_ = self.stmt_text("loop", str(k), "body_exit")
-        if RANGE_FOR.match(it_text.strip()) and not self.rw.get("for_to_loop"):
+        keep = any(d[0] in ("*", str(k)) for d in self.rw.get("keep_for", []))
+        if (RANGE_FOR.match(it_text.strip()) and not self.rw.get("for_to_loop")) or keep:
             # `for x in range` is accepted by Verus as written; the overlay may name the ghost iterator
             head = self.render_children(n, n["s"], n["body"][0])
             gi = self.secs("loop", str(k), "iter_name")
@@ -829,6 +835,12 @@ def generate(outdir):
     ovs = sorted(os.path.join(ovdir, f) for f in os.listdir(ovdir) if f.endswith(".ov"))
     recs, mods_extra, order = parse_overlay(ovs)
     ctx = Ctx()
+    ctx.assoc = {}
+    for src, mod, im in impls:
+        tyname = re.sub(r"<.*", "", compact(im["self_ty_text"]))
+        for sub in im["items"]:
+            if sub["kind"] == "type":
+                ctx.assoc.setdefault((mod, tyname), {})[sub["name"]] = sub["ty"]
     table = {}
     by_mod = {}
     missing = []
@@ -870,6 +882,11 @@ def generate(outdir):
             im = fn.impl
             gen = im.get("generics_text", "")
             ty = fn.src.t(im["self_ref"]["elem"]) if "self_ref" in im else im["self_ty_text"]
+            if "'_" in ty:
+                # anonymous impl lifetime -> named (same meaning); lets `Self::Item` of the sibling impl resolve
+                ty = ty.replace("'_", "'a")
+                gen = "<'a, " + gen[1:] if gen else "<'a>"
+                r.log.append("R10 anonymous impl lifetime '_ -> 'a")
             where = im.get("where_text", "")
             extra = rec.attrs.get("impl_where", "")
             if extra:
